@@ -1,11 +1,102 @@
 /-
-  miscmodel driver part: Panic (stub until the model lands).
+  miscmodel driver part: ibc-go-authored parsers with explicit panics (C47).
+  Answers: {"ok": …} | {"err": "<class>"} | {"panic": "yes"}.
 -/
 import IbcVerif.Util.J
+import IbcVerif.Model.PanicParsers
 open Lean
 namespace IbcVerif.Driver.MiscPanic
-open IbcVerif.J
+open IbcVerif IbcVerif.J IbcVerif.Parsers
 
-def handle (_f : String) (_j : Json) : Option (Except String Json) := none
+def ofG {α : Type} (f : α → Json) : G α → Json
+  | .ok a => ok (f a)
+  | .err e => err e
+  | .panic _ => Json.mkObj [("panic", Json.str "yes")]
+
+def js (s : Str) : Json := Json.str (String.ofList s)
+
+instance : Inhabited JVal := ⟨.null⟩
+instance : Inhabited Forward := ⟨⟨[], [], [], none, none, none⟩⟩
+
+/-- `encoding/json` dynamic value of a parsed document (numbers: integers only in the generators) -/
+partial def toJVal : Json → JVal
+  | .null => .null
+  | .bool b => .bool b
+  | .num n => .num (if n.exponent = 0 then n.mantissa else n.mantissa / (10 ^ n.exponent : Nat))
+  | .str s => .str s.toList
+  | .arr a => .arr (a.toList.map toJVal)
+  | .obj kv => .obj (kv.toList.map (fun (k, v) => (k.toList, toJVal v)))
+
+/-- `json.Unmarshal([]byte(s), &map[string]any{})` -/
+def parseObj (s : Str) : Option (List (Str × JVal)) :=
+  match Json.parse (String.ofList s) with
+  | .ok (.obj kv) => some (kv.toList.map (fun (k, v) => (k.toList, toJVal v)))
+  | _ => none
+
+/-- `GetCustomPacketData(key)` of FungibleTokenPacketData: memo as a JSON object, then the key -/
+def customData (memo key : Str) : Option JVal :=
+  if memo = [] then none
+  else match parseObj memo with
+    | none => none
+    | some kv => jlookup kv key
+
+partial def forwardJson (f : Forward) : Json :=
+  Json.mkObj [("receiver", js f.receiver), ("port", js f.port), ("channel", js f.channel),
+    ("retries", match f.retries with | some r => Json.str (toString r) | none => Json.null),
+    ("next", match f.next with | some n => forwardJson n | none => Json.null)]
+
+def isHexStr (s : Str) : Bool :=
+  s.length % 2 == 0 && s.all (fun c => c.isDigit || ('a' ≤ c && c ≤ 'f') || ('A' ≤ c && c ≤ 'F'))
+
+def maxU64 : Nat := 2 ^ 64 - 1
+
+def handle (f : String) (j : Json) : Option (Except String Json) :=
+  match f with
+  | "parse.clientId" => some do
+      let s := (← str j "s").toList
+      pure <| ofG (fun (t, n) => Json.mkObj [("type", js t), ("seq", num n)]) (parseClientIdentifier Lib.go s)
+  | "parse.height" => some do
+      let s := (← str j "s").toList
+      pure <| ofG (fun (r, h) => Json.mkObj [("rev", num r), ("h", num h)]) (parseHeight Lib.go s)
+  | "parse.chainId" => some do
+      let s := (← str j "s").toList
+      pure <| ofG (fun n => num n) (parseChainID Lib.go s)
+  | "parse.revisionFormat" => some do
+      let s := (← str j "s").toList
+      pure <| okBool (Lib.go.isRevisionFormat s)
+  | "parse.setRevision" => some do
+      let s := (← str j "s").toList; let r ← nat j "rev"
+      pure <| ofG js (setRevisionNumber Lib.go s r)
+  | "parse.identifier" => some do
+      let s := (← str j "s").toList; let p := (← str j "prefix").toList
+      pure <| ofG (fun n => num n) (parseIdentifier Lib.go s p)
+  | "parse.channelSeq" => some do
+      pure <| ofG (fun n => num n) (parseChannelSequence Lib.go (← str j "s").toList)
+  | "parse.connectionSeq" => some do
+      pure <| ofG (fun n => num n) (parseConnectionSequence Lib.go (← str j "s").toList)
+  | "parse.channelPath" => some do
+      pure <| ofG (fun (p, c) => Json.mkObj [("port", js p), ("channel", js c)]) (parseChannelPath Lib.go (← str j "s").toList)
+  | "parse.connectionPath" => some do
+      pure <| ofG js (parseConnectionPath Lib.go (← str j "s").toList)
+  | "parse.clientStatePath" => some do
+      pure <| ofG js (parseClientStatePath Lib.go (← str j "s").toList)
+  | "parse.extractDenom" => some do
+      let s := (← str j "s").toList
+      pure <| ofG (fun d => Json.mkObj [("trace", Json.arr (d.trace.map (fun (p, c) => Json.arr #[js p, js c])).toArray), ("base", js d.base)])
+        (extractDenomFromPath Lib.go s)
+  | "parse.iterKey" => some do
+      let k ← bytes j "key"
+      pure <| ofG (fun (r, h) => Json.mkObj [("rev", num r), ("h", num h)]) (getHeightFromIterationKey k)
+  | "memo.forward" => some do
+      let memo := (← str j "memo").toList
+      pure <| ofG forwardJson (getPacketMetadata parseObj (memo.length + 1) (customData memo "forward".toList))
+  | "memo.callback" => some do
+      let memo := (← str j "memo").toList
+      let key := (← str j "key").toList
+      pure <| ofG (fun c => Json.mkObj [("address", js c.address),
+          ("commitGas", num (if c.gasLimit = 0 then maxU64 else c.gasLimit)),
+          ("calldata", match c.calldata with | some d => Json.str ((String.ofList d).map Char.toLower) | none => Json.str "")])
+        (getCallbackFields Lib.go isHexStr (customData memo key))
+  | _ => none
 
 end IbcVerif.Driver.MiscPanic
